@@ -357,6 +357,14 @@ fn invalid_cases(dir: &Path) -> Vec<(String, Vec<String>)> {
     c.push(("fragmented".into(), with(ok.clone(), &["--fragmented"])));
     c.push(("unknown-flag".into(), with(ok.clone(), &["--bogus"])));
     c.push(("output-is-directory".into(), replace(&ok, "--output", Some(&dir.display().to_string()))));
+    // an output that can be opened but not written (every write fails with ENOSPC): the file the
+    // library would produce is small enough to sit in any buffer until exit
+    if Path::new("/dev/full").exists() {
+        c.push(("output-device-full".into(), replace(&ok, "--output", Some("/dev/full"))));
+        let mut j = replace(&ok, "--output", Some("/dev/full"));
+        j.insert(0, "--json".into());
+        c.push(("output-device-full-json".into(), j));
+    }
     c
 }
 
